@@ -271,6 +271,40 @@ func genC18(e *emitter, tier string, seed int64) {
 	}
 	emitV2(e, "n = 0\nfor i = 9223372036854775800; i < 9223372036854775803; i = i + 1 {\n  n = n + 1\n}\np(n)\n", 3000, "int-order")
 	emitV2(e, "n = 0\nfor i = 9007199254740992; i <= 9007199254740993; i = i + 1 {\n  n = n + 1\n}\np(n)\n", 3000, "int-order")
+	// the operator table on the v2 interpreter: every unary operator on every operand class, binary operators
+	// and compound assignments (to a variable and to a list element) over operand pairs
+	{
+		cls := operands()
+		for _, op := range unOps {
+			for _, x := range cls {
+				emitV2(e, fmt.Sprintf("p(%s pr(%s))\n", op, x.src), 3000, "operators")
+			}
+		}
+		for _, op := range binOps {
+			for _, l := range cls {
+				for _, r := range cls {
+					if tier != "thorough" && rng.Intn(12) != 0 {
+						continue
+					}
+					emitV2(e, fmt.Sprintf("p(pr(%s) %s pr(%s))\n", l.src, op, r.src), 3000, "operators")
+				}
+			}
+		}
+		for _, op := range asOps {
+			for _, l := range cls {
+				for _, r := range cls {
+					if tier != "thorough" && rng.Intn(10) != 0 {
+						continue
+					}
+					emitV2(e, fmt.Sprintf("x = %s\nx %s pr(%s)\np(x)\n", l.src, op, r.src), 3000, "operators")
+					emitV2(e, fmt.Sprintf("c = [0, %s]\nc[1] %s pr(%s)\np(c)\nm = {\"k\": %s}\nm[\"k\"] %s %s\np(m)\n", l.src, op, r.src, l.src, op, r.src), 3000, "operators")
+				}
+			}
+		}
+		for _, src := range []string{".[0] = 1\n", ".[0] += 1\n", "x = .[0]\n", "a, b += 1, 2\n", "a = 1\na += 1, 2\n", "l = [1]\nl[0], l[1] = 1, 2\np(l)\n", "zz[0] = 1\n", "zz[0] += 1\n", "l = [1]\nl[5] += 1\n", "l = [1]\nl[\"a\"] += 1\n"} {
+			emitV2(e, src, 3000, "operators")
+		}
+	}
 	// index paths: present and missing keys, at the last and at an inner position, on maps inside lists and
 	// lists inside maps, wrongly typed and out-of-range subscripts
 	for _, path := range []string{`m["z"]`, `m["z"]["b"]`, `m["a"]["z"]`, `m["a"]["z"]["q"]`, `m["a"]["b"]`, `m["a"]["b"][0]`, `m["l"][0]`, `m["l"][5]`, `m["l"][0]["q"]`, `m["l"][0]["x"]`, `m["l"][0]["x"][0]`,
